@@ -742,6 +742,7 @@ func runC06(w *World, r *Report) {
 		r.check(len(pcs) >= 2, "balance-shape", "CalculateBalance/tip-poured", w.Pos(fn.Pos()), "the tip itself is counted", "fewer than two pourFunds calls")
 	}
 	checkpointPruneAtomic(w, r)
+	checkpointWritesEveryAddress(w, r, "checkpoint-replaces-every-record")
 
 	// funds lock mode
 	li := ComputeLocks(w, acctScope)
@@ -825,54 +826,7 @@ func runC07(w *World, r *Report) {
 		}
 	}
 
-	r.rule("checkpoint-writes-every-address", "saveToStorage writes a record for every address of the funds map: no iteration skips the write (a skipped write leaves the previous checkpoint's stale record in place)", 1)
-	if sf := w.fx(r, "accountant", "fundsMemMap", "saveToStorage"); sf != nil {
-		sfn := sf.fn
-		var next *ssa.Next
-		instrsOf(sfn, func(in ssa.Instruction) {
-			if n, ok := in.(*ssa.Next); ok {
-				if rg, ok := n.Iter.(*ssa.Range); ok && strings.HasSuffix(pathOf(rg.X), ".m") {
-					next = n
-				}
-			}
-		})
-		if next == nil {
-			r.bad("checkpoint-writes-every-address", "saveToStorage/range", w.Pos(sfn.Pos()), "range over the funds map", "not found")
-		} else {
-			var okv, key ssa.Value
-			for _, ref := range *next.Referrers() {
-				if e, ok := ref.(*ssa.Extract); ok {
-					switch e.Index {
-					case 0:
-						okv = e
-					case 1:
-						key = e
-					}
-				}
-			}
-			skipped := 0
-			if okv != nil {
-				for _, te := range trueEdges(sfn, okv) {
-					walkFrom(nil, te.To(), nil, func(x ssa.Instruction) bool {
-						if c, ok := x.(*ssa.Call); ok && c.Call.Value == ssa.Value(sfn.Params[1]) { // the save callback
-							if key != nil && len(c.Call.Args) > 0 && sameVal(c.Call.Args[0], key) {
-								return true
-							}
-						}
-						if _, ok := x.(*ssa.Return); ok {
-							return true
-						}
-						if x == ssa.Instruction(next) {
-							skipped++
-							return true
-						}
-						return false
-					})
-				}
-			}
-			r.check(okv != nil && skipped == 0, "checkpoint-writes-every-address", "saveToStorage/every-address", lineOf(w, next), "every ranged address reaches the save callback with its own key", fmt.Sprintf("%d ways to the next iteration without writing", skipped))
-		}
-	}
+	checkpointWritesEveryAddress(w, r, "checkpoint-writes-every-address")
 
 	storageWriters(w, r, "storage-only-what-is-pruned")
 
@@ -938,4 +892,57 @@ func everyItemPasses(fn *ssa.Function, rv *ssa.UnOp, processed func(ssa.Instruct
 		})
 	}
 	return bad == 0
+}
+
+// checkpointWritesEveryAddress: shared by C07 (truncation is transparent) and C06 (a balance is the checkpoint plus the
+// live flows: a stale checkpoint record of a drained wallet is reported as money it no longer has).
+func checkpointWritesEveryAddress(w *World, r *Report, rule string) {
+	r.rule(rule, "saveToStorage writes a record for every address of the funds map: no iteration skips the write (a skipped write leaves the previous checkpoint's stale record in place)", 1)
+	if sf := w.fx(r, "accountant", "fundsMemMap", "saveToStorage"); sf != nil {
+		sfn := sf.fn
+		var next *ssa.Next
+		instrsOf(sfn, func(in ssa.Instruction) {
+			if n, ok := in.(*ssa.Next); ok {
+				if rg, ok := n.Iter.(*ssa.Range); ok && strings.HasSuffix(pathOf(rg.X), ".m") {
+					next = n
+				}
+			}
+		})
+		if next == nil {
+			r.bad(rule, "saveToStorage/range", w.Pos(sfn.Pos()), "range over the funds map", "not found")
+		} else {
+			var okv, key ssa.Value
+			for _, ref := range *next.Referrers() {
+				if e, ok := ref.(*ssa.Extract); ok {
+					switch e.Index {
+					case 0:
+						okv = e
+					case 1:
+						key = e
+					}
+				}
+			}
+			skipped := 0
+			if okv != nil {
+				for _, te := range trueEdges(sfn, okv) {
+					walkFrom(nil, te.To(), nil, func(x ssa.Instruction) bool {
+						if c, ok := x.(*ssa.Call); ok && c.Call.Value == ssa.Value(sfn.Params[1]) { // the save callback
+							if key != nil && len(c.Call.Args) > 0 && sameVal(c.Call.Args[0], key) {
+								return true
+							}
+						}
+						if _, ok := x.(*ssa.Return); ok {
+							return true
+						}
+						if x == ssa.Instruction(next) {
+							skipped++
+							return true
+						}
+						return false
+					})
+				}
+			}
+			r.check(okv != nil && skipped == 0, rule, "saveToStorage/every-address", lineOf(w, next), "every ranged address reaches the save callback with its own key", fmt.Sprintf("%d ways to the next iteration without writing", skipped))
+		}
+	}
 }
